@@ -17,6 +17,7 @@ import EnrVerif.Model.NodeId
 import EnrVerif.Model.Strings
 import EnrVerif.Model.Json
 import EnrVerif.Model.Utf8
+import EnrVerif.Model.Monitor
 
 set_option linter.unusedVariables false
 
@@ -199,7 +200,7 @@ def checkRecord (d : DS) (s : St) (o : Obs) (what : String) : St × Scheme × Op
   let r := o.toRec
   let s := s.cmp s!"{what}.enc" (hex r.encode) o.enc
   let s := s.cmp s!"{what}.size" (toString r.size) o.size
-  let s := if r.size ≤ 300 then s.chk else s.prop "C09" "size_le_300" s!"size={r.size}"
+  let s := if Monitor.sizeOk r then s.chk else s.prop "C09" "size_le_300" s!"size={r.size}"
   let s := if o.enc == "panic" || o.size == toString (o.enc.length / 2) then s.chk
     else s.prop "C09" "size_is_encoding_length" s!"size()={o.size} encoding={o.enc.length / 2}"
   match S.enrToPublic r.content with
@@ -207,15 +208,15 @@ def checkRecord (d : DS) (s : St) (o : Obs) (what : String) : St × Scheme × Op
   | .ok pk =>
     let (s, v) := s.verifyCached S d.toB pk r.rlpContent r.sig
     let s := if v then s.chk else s.prop "C05" "verifies_under_own_key" s!"sig={hex r.sig}"
-    let s := if r.id == some vV4 then s.chk else s.prop "C05" "id_is_v4" ""
-    let s := if r.nodeId == nodeIdOf S pk then s.chk
+    let s := if Monitor.idOk r then s.chk else s.prop "C05" "id_is_v4" ""
+    let s := if Monitor.nodeIdOk S pk r then s.chk
       else s.prop "C10" "node_id_is_hash_of_key" s!"nid={hex r.nodeId} want={hex (nodeIdOf S pk)}"
     let S' := @memo S d.deq pk r.rlpContent r.sig v
     -- accepted again by the decoder, with identical fields
-    let s := match decode S' r.encode with
-      | .ok (r2, rest) =>
-        if r2 == r && rest.isEmpty then s.chk else s.prop "C04" "redecode_identical" ""
-      | .error e => s.prop "C05" "accepted_again_by_decoder" s!"err={rlpErrStr e}"
+    let s := match Monitor.redecode S' r with
+      | .identical => s.chk
+      | .different => s.prop "C04" "redecode_identical" ""
+      | .rejected e => s.prop "C05" "accepted_again_by_decoder" s!"err={rlpErrStr e}"
     (s, S', some (d.toB pk, v))
 
 /-- memoise one verification for a scheme whose keys are `Bytes` -/
@@ -1173,7 +1174,9 @@ def feed (a : Acc) (line : String) : Acc :=
     let a := flushAcc a
     let a := { a with st := { a.st with nInputs := a.st.nInputs + 1 } }
     let ctx := if head == "init" || head == "step" then a.st.ctx else s!"{head}/{tget t "scheme"}/{tget t "tag"}"
-    { a with st := { a.st with pend := some (head, t), ctx := ctx } }
+    -- the one-entry verification cache lives for one input line only: the next line may be read
+    -- under another key type, whose verification function answers the same triple differently
+    { a with st := { a.st with pend := some (head, t), ctx := ctx, lastVerify := none } }
   | "out" => { a with st := { a.st with pendOut := some t } }
   | "rec" | "other" => { a with recs := parseObs t :: a.recs }
   | "acc" => { a with acc := some t }
@@ -1183,7 +1186,7 @@ def feed (a : Acc) (line : String) : Acc :=
     { a with st := handleNid { a.st with ctx := s!"nid/{tget t "op"}" } t }
   | "alt" =>
     let a := flushAcc a
-    { a with st := handleAlt { (flushGroup a.st) with ctx := s!"alt/{tget t "scheme"}/{tget t "route"}" } t }
+    { a with st := handleAlt { (flushGroup a.st) with ctx := s!"alt/{tget t "scheme"}/{tget t "route"}", lastVerify := none } t }
   | "ck" =>
     let a := flushAcc a
     let a := { a with st := { a.st with nInputs := a.st.nInputs + 1 } }
